@@ -76,6 +76,12 @@ def _build(e, T=None):
         return build(e[1], T) + build(e[2], T)
     if k == "mul":
         return e[1] * build(e[2], T)
+    if k == "none":
+        return P.formula()
+    if k == "iadd":           # in-place accumulation onto the left operand
+        x = build(e[1], T)
+        x += build(e[2], T)
+        return x
     if k == "mixw":
         args = []
         for x, q in e[1]:
